@@ -1368,6 +1368,8 @@ where
             &[
                 ("consts", verif::V::L(verif_names(&self.injecting_consts))),
                 ("vars", verif::V::L(verif_names(&self.injecting_vars))),
+                ("outer_consts", verif::V::L(verif_names(&outer_consts))),
+                ("outer_vars", verif::V::L(verif_names(&outer_vars))),
             ],
         );
 
@@ -1422,6 +1424,8 @@ where
                 ("block", verif::V::B(arrow_expr.body.is_block_stmt())),
                 ("consts", verif::V::L(verif_names(&self.injecting_consts))),
                 ("vars", verif::V::L(verif_names(&self.injecting_vars))),
+                ("outer_consts", verif::V::L(verif_names(&outer_consts))),
+                ("outer_vars", verif::V::L(verif_names(&outer_vars))),
             ],
         );
 
